@@ -107,21 +107,22 @@ type Answer struct {
 
 // RunResult is everything observable about one run.
 type RunResult struct {
-	Outcome   string              `json:"outcome"`
-	Detail    string              `json:"detail,omitempty"`
-	Answers   []*Answer           `json:"answers"`
-	View      map[string][]string `json:"view"` // uri -> sorted normalised diagnostics (last publish wins)
-	Publishes int                 `json:"publishes"`
-	Stats     simrt.Stats         `json:"stats"`
-	FsFired   map[string]int      `json:"fs_fired,omitempty"`
-	FsCalls   map[string]int      `json:"fs_calls,omitempty"`
-	Net       map[string]int      `json:"net,omitempty"`
-	Tape      []int               `json:"tape,omitempty"`
-	SimMillis int64               `json:"sim_ms"`
-	Skipped   []int               `json:"skipped,omitempty"` // ops the client model could not perform
-	SaveTexts map[int]string      `json:"-"`                 // op index of a save -> the text it wrote and announced
-	Probes    map[string]int      `json:"probes,omitempty"`
-	Log       []string            `json:"log,omitempty"`
+	Outcome        string              `json:"outcome"`
+	Detail         string              `json:"detail,omitempty"`
+	Answers        []*Answer           `json:"answers"`
+	View           map[string][]string `json:"view"` // uri -> sorted normalised diagnostics (last publish wins)
+	Publishes      int                 `json:"publishes"`
+	WindowMessages int                 `json:"window_messages,omitempty"` // window/showMessage, logMessage seen
+	Stats          simrt.Stats         `json:"stats"`
+	FsFired        map[string]int      `json:"fs_fired,omitempty"`
+	FsCalls        map[string]int      `json:"fs_calls,omitempty"`
+	Net            map[string]int      `json:"net,omitempty"`
+	Tape           []int               `json:"tape,omitempty"`
+	SimMillis      int64               `json:"sim_ms"`
+	Skipped        []int               `json:"skipped,omitempty"` // ops the client model could not perform
+	SaveTexts      map[int]string      `json:"-"`                 // op index of a save -> the text it wrote and announced
+	Probes         map[string]int      `json:"probes,omitempty"`
+	Log            []string            `json:"log,omitempty"`
 }
 
 // ViewString renders the folded diagnostics view.
@@ -273,6 +274,9 @@ func (e *Engine) sendRaw(method string, params interface{}, isReq bool, opIdx in
 	return a
 }
 
+// WindowMessages returns how many window/showMessage, logMessage notifications the server sent.
+func (e *Engine) WindowMessages() int { e.drain(); return e.res.WindowMessages }
+
 // drain folds everything the server has written so far into the result.
 func (e *Engine) drain() {
 	for _, b := range e.ch.take() {
@@ -327,6 +331,8 @@ func (e *Engine) drain() {
 				}
 				e.completions[a.Op] = string(m.Result)
 			}
+		case m.Method == "window/showMessage" || m.Method == "window/logMessage" || m.Method == "window/showMessageRequest":
+			e.res.WindowMessages++ // the server told the user something
 		case m.Method != "":
 			// other server->client notifications (progress) are ignored
 		}
